@@ -461,6 +461,7 @@ def frame_independence(seed, n):
             T = PoseSE3([rng.gauss(0, sc) for _ in range(3)], rand_unit_quat(rng, near180=rng.random() < 0.3))
         else:
             T = np.array([rng.gauss(0, sc) for _ in range(ce.DIM[kind])])
+        far_lm = False
         if kind in ('SE2', 'SE3') and rng.random() < 0.15:
             # the survey is ~5 km from the origin and every landmark starts at the origin: the first update of a landmark is thousands of units long
             lm_ = [v for v in g._vertices if type(v.pose).__name__ in ('PoseR2', 'PoseR3')]
@@ -474,6 +475,7 @@ def frame_independence(seed, n):
                     if type(v.pose).__name__ in ('PoseR2', 'PoseR3'):
                         v.pose = type(v.pose)([0.0] * len(np.asarray(v.pose)))
                 sc = max(sc, 6e3)
+                far_lm = True
         if rng.random() < 0.2:
             # every landmark (else every pose) of the ORIGINAL graph starts from one shared pose object; the transformed graph gets its own objects
             grp = [v for v in g._vertices if type(v.pose) is type(g._vertices[-1].pose)]
@@ -516,6 +518,8 @@ def frame_independence(seed, n):
             # positions carry an absolute rounding error of a few ulp of |T| per operation; everything else is O(1)
             # R^n graphs: nothing rotates, the only error is a few ulp of |T|;  SE(n): an angular rounding error of 1e-9 rad acts on a lever arm |T|
             at = (1e-9 * (1 + min(sc, 10.0)) + 1e4 * 2.0 ** -52 * sc) if kind in ('R2', 'R3') else 1e-5 * (1 + sc)
+            if far_lm:
+                at = 1e-3 * (1 + sc)      # residuals of thousands of units make the first steps violently non-linear: rounding is amplified a lot
             if len(exp) == 3 and kind == 'SE2' and len(got) == 3:
                 dth = math.remainder(exp[2] - got[2], 2 * math.pi)
                 ok = np.allclose(exp[:2], got[:2], rtol=0, atol=at) and abs(dth) < 1e-6
